@@ -51,10 +51,49 @@ def _perms_slice(n, pre):
     return [pre + t for t in itertools.permutations(rest)]
 
 
-def _call(part, sub, case, fn, *args, **kw):
-    """Call into the library; an exception is an observation (README rule 6)."""
+class _Timeout(BaseException):
+    """Raised by the watchdog inside a library call (BaseException: not swallowed by the
+    library's own `except Exception`)."""
+
+
+CALL_CPU_LIMIT = 2.0     # seconds of CPU time of this process for ONE library call (normal: < 1 ms)
+
+
+_HUNG = set()
+
+
+def _on_alarm(signum, frame):
+    raise _Timeout()
+
+
+def _guarded_call(fn, *args, **kw):
+    """Run one library call under a CPU-time watchdog (ITIMER_VIRTUAL counts only the CPU time
+    this process gets, so a loaded machine cannot trigger it).  A call that does not return is an
+    observation about the code (e.g. a pass counter whose loop never reaches the identity)."""
+    import signal
+    old = signal.signal(signal.SIGVTALRM, _on_alarm)
+    signal.setitimer(signal.ITIMER_VIRTUAL, CALL_CPU_LIMIT)
     try:
-        return True, fn(*args, **kw)
+        return fn(*args, **kw)
+    finally:
+        signal.setitimer(signal.ITIMER_VIRTUAL, 0)
+        signal.signal(signal.SIGVTALRM, old)
+
+
+def _call(part, sub, case, fn, *args, **kw):
+    """Call into the library; an exception is an observation (README rule 6), so is a hang."""
+    key = (sub, case.get("op") or case.get("family"))
+    if key in _HUNG:
+        # this entry point already failed to return once in this process: it has been reported;
+        # do not burn the time budget on it again (the run is failing anyway)
+        part.bump("calls skipped after a timeout of the same entry point")
+        return False, None
+    try:
+        return True, _guarded_call(fn, *args, **kw)
+    except _Timeout:
+        _HUNG.add(key)
+        part.violation(sub, case, {"no answer within %g s of CPU time" % CALL_CPU_LIMIT: True})
+        return False, None
     except Exception as exc:  # noqa
         part.violation(sub, case, {"exception": repr(exc)})
         return False, None
@@ -106,12 +145,23 @@ def ref_ops(p):
     return exp
 
 
-def check_ops(part, Perm, p):
+def _case(p, after, **kw):
+    """The replayable case: the permutation, what was called, and the permutation the same worker
+    evaluated immediately before (replay evaluates that one first: one step of history, so that
+    a defect that depends on what was computed before is reproducible)."""
+    case = {"perm": p}
+    case.update(kw)
+    if after is not None:
+        case["after"] = after
+    return case
+
+
+def check_ops(part, Perm, p, after=None):
     p = tuple(p)
     exp = ref_ops(p)
     ok_all = True
     for name in ("stack_sort", "pop_stack_sort", "bubble_sort", "quick_sort"):
-        case = {"perm": p, "op": name}
+        case = _case(p, after, op=name)
         P = Perm(p)
         ok, got = _call(part, "ops", case, getattr(P, name))
         ok_all &= ok and _perm_result(part, "ops", case, got, exp[name], Perm)
@@ -119,14 +169,14 @@ def check_ops(part, Perm, p):
             part.violation("ops", case, {"input mutated": repr(P)})
     P = Perm(p)
     for name in OPS_PRED + ["count_stack_sorts", "count_pop_stack_sorts"]:
-        case = {"perm": p, "op": name}
+        case = _case(p, after, op=name)
         ok, got = _call(part, "ops", case, getattr(P, name))
-        if ok and (got != exp[name] or type(got) is not type(exp[name])):
+        if ok and (got != exp[name] or not isinstance(got, type(exp[name]))):
             part.violation("ops", case, {"expected": exp[name], "got": repr(got)})
             ok_all = False
     # second call on the same object, after everything else ran: same answers
     for name in ("stack_sort", "pop_stack_sort", "quick_sort", "bubble_sort"):
-        case = {"perm": p, "op": name, "second_call": True}
+        case = _case(p, after, op=name, second_call=True)
         ok, got = _call(part, "ops", case, getattr(P, name))
         if ok:
             _perm_result(part, "ops", case, got, exp[name], Perm)
@@ -138,8 +188,10 @@ def shard_ops(shard):
     Perm = _P()
     part = Partial()
     cnt = {}
+    prev = None
     for p in _perms_slice(n, pre):
-        exp = check_ops(part, Perm, p)
+        exp = check_ops(part, Perm, p, prev)
+        prev = p
         for name in OPS_PRED:
             if exp[name]:
                 cnt[name] = cnt.get(name, 0) + 1
@@ -157,17 +209,21 @@ def shard_ops(shard):
 # Simion-Schmidt
 # --------------------------------------------------------------------------------------------
 
-def check_ss(part, Perm, SS, p):
+def check_ss(part, Perm, SS, p, after=None):
     """Both directions on one permutation.  Returns (image or None, preimage or None)."""
     p = tuple(p)
     n = len(p)
     res = []
     for inverse, in_domain, target_bad in ((False, not D.has_123(p), D.has_132),
                                            (True, not D.has_132(p), D.has_123)):
-        case = {"perm": p, "inverse": inverse}
+        case = _case(p, after, inverse=inverse)
         P = Perm(p)
         try:
-            got = SS(P, inverse=inverse) if inverse else SS(P)
+            got = _guarded_call(SS, P, inverse=inverse) if inverse else _guarded_call(SS, P)
+        except _Timeout:
+            part.violation("ss", case, {"no answer within %g s of CPU time" % CALL_CPU_LIMIT: True})
+            res.append(None)
+            continue
         except ValueError as exc:
             if in_domain:
                 part.violation("ss", case, {"in the domain, but raised": repr(exc)})
@@ -186,6 +242,13 @@ def check_ss(part, Perm, SS, p):
             part.violation("ss", case, {"not a permutation of the same length": repr(got)})
             res.append(None)
             continue
+        again = None
+        try:
+            again = _guarded_call(SS, Perm(p), inverse=inverse)
+        except (Exception, _Timeout) as exc:  # noqa
+            again = repr(exc)
+        if again != got:
+            part.violation("ss", case, {"first call": list(g), "second call": repr(again)})
         if target_bad(g):
             part.violation("ss", case, {"image is not in the target class": list(g)})
         elif D.ltr_minima(g) != D.ltr_minima(p):
@@ -194,10 +257,10 @@ def check_ss(part, Perm, SS, p):
         else:
             # round trip through the other direction
             try:
-                back = SS(Perm(g), inverse=not inverse)
+                back = _guarded_call(SS, Perm(g), inverse=not inverse)
                 if tuple(back) != p:
                     part.violation("ss", case, {"image": list(g), "other direction gives": repr(back)})
-            except Exception as exc:  # noqa
+            except (Exception, _Timeout) as exc:  # noqa
                 part.violation("ss", case, {"image": list(g), "other direction raises": repr(exc)})
         res.append(g)
     return res
@@ -210,8 +273,10 @@ def shard_ss(shard):
     SS = Bijections.simion_and_schmidt
     part = Partial()
     fwd, inv = [], []
+    prev = None
     for p in _perms_slice(n, pre):
-        f, b = check_ss(part, Perm, SS, p)
+        f, b = check_ss(part, Perm, SS, p, prev)
+        prev = p
         if f is not None:
             fwd.append(f)
         if b is not None:
@@ -249,6 +314,9 @@ _HARD = [((0, 1, 2), frozenset([(0, 0), (1, 1), (2, 2), (3, 3)])),
          ((0, 1, 2), frozenset([(0, 3), (1, 2), (2, 1), (3, 0)]))]
 
 
+TWICE = 6      # lengths up to which every family predicate is evaluated a second time
+
+
 def ref_families(p):
     shape = D.rsk_shape(p)
     fl = D.forest_like_by_patterns(p)
@@ -271,15 +339,23 @@ def ref_families(p):
     return exp
 
 
-def check_families(part, props, p, Perm):
+def check_families(part, props, p, Perm, after=None):
     p = tuple(p)
     exp = ref_families(p)
     P = Perm(p)
     for name in FAMILIES:
-        case = {"perm": p, "family": name}
+        case = _case(p, after, family=name)
         ok, got = _call(part, "families", case, getattr(props, name), P)
         if ok and (got is not exp[name]):
             part.violation("families", case, {"expected": exp[name], "got": repr(got)})
+    if len(p) <= TWICE:
+        # second round on a fresh, equal object after all ten predicates ran: same answers
+        P2 = Perm(p)
+        for name in FAMILIES:
+            case = _case(p, after, family=name, second_call=True)
+            ok, got = _call(part, "families", case, getattr(props, name), P2)
+            if ok and (got is not exp[name]):
+                part.violation("families", case, {"expected": exp[name], "got": repr(got)})
     return exp
 
 
@@ -289,8 +365,10 @@ def shard_families(shard):
     from permuta.bisc import perm_properties as props
     part = Partial()
     cnt = {}
+    prev = None
     for p in _perms_slice(n, pre):
-        exp = check_families(part, props, p, Perm)
+        exp = check_families(part, props, p, Perm, prev)
+        prev = p
         vals = [exp[f] for f in FAMILIES]
         for f in FAMILIES:
             if exp[f]:
@@ -319,14 +397,14 @@ def _bruhat_tables(n):
     return t
 
 
-def check_deep(part, props, Perm, p, bruhat):
+def check_deep(part, props, Perm, p, bruhat, after=None):
     p = tuple(p)
     P = Perm(p)
     l1, l12 = D.greene_l1_l12(p)
     l2 = l12 - l1
     for name, exp in (("yt_perm_avoids_22", not l2 >= 2),
                       ("yt_perm_avoids_32", not (l1 >= 3 and l2 >= 2))):
-        case = {"perm": p, "family": name, "by": "greene"}
+        case = _case(p, after, family=name, by="greene")
         ok, got = _call(part, "deep", case, getattr(props, name), P)
         if ok and got is not exp:
             part.violation("deep", case, {"expected": exp, "got": repr(got), "lambda1": l1,
@@ -334,7 +412,7 @@ def check_deep(part, props, Perm, p, bruhat):
     if bruhat:
         allp, rm, ln = _bruhat_tables(len(p))
         exp = D.smooth_by_bruhat(p, allp, rm, ln)
-        case = {"perm": p, "family": "smooth", "by": "bruhat"}
+        case = _case(p, after, family="smooth", by="bruhat")
         ok, got = _call(part, "deep", case, props.smooth, P)
         if ok and got is not exp:
             part.violation("deep", case, {"expected": exp, "got": repr(got)})
@@ -346,8 +424,10 @@ def shard_deep(shard):
     Perm = _P()
     from permuta.bisc import perm_properties as props
     part = Partial()
+    prev = None
     for p in _perms_slice(n, pre):
-        l1, l2 = check_deep(part, props, Perm, p, bruhat)
+        l1, l2 = check_deep(part, props, Perm, p, bruhat, prev)
+        prev = p
         part.add(1, 1 if l2 >= 2 else 0)
         part.outcomes.add(("shape", l1, l2))
     return part
@@ -450,30 +530,36 @@ def run(ctx, only=None):
 
 def replay(ctx, rec):
     Perm = _P()
+    _HUNG.clear()
     sub, case = rec["sub"], rec["case"]
-    if sub == "ops":
-        check_ops(ctx, Perm, tuple(case["perm"]))
-    elif sub == "ss":
-        from permuta.permutils.bijections import Bijections
-        check_ss(ctx, Perm, Bijections.simion_and_schmidt, tuple(case["perm"]))
-    elif sub == "ss_bijection":
-        from permuta.permutils.bijections import Bijections
+    from permuta.permutils.bijections import Bijections
+    from permuta.bisc import perm_properties as props
+    SS = Bijections.simion_and_schmidt
+    if sub == "ss_bijection":
         n = case["n"]
         scratch = Partial()
         fwd, inv = [], []
         for p in R.perms(n):
-            f, b = check_ss(scratch, Perm, Bijections.simion_and_schmidt, p)
+            f, b = check_ss(scratch, Perm, SS, p)
             if f is not None:
                 fwd.append(f)
             if b is not None:
                 inv.append(b)
         ss_levels(ctx, n, fwd, inv)
-    elif sub == "families":
-        from permuta.bisc import perm_properties as props
-        check_families(ctx, props, tuple(case["perm"]), Perm)
-    elif sub == "deep":
-        from permuta.bisc import perm_properties as props
-        p = tuple(case["perm"])
-        check_deep(ctx, props, Perm, p, len(p) <= 6)
-    else:
-        raise ValueError("unknown sub-check %r" % sub)
+        return
+    p = tuple(case["perm"])
+    after = tuple(case["after"]) if case.get("after") is not None else None
+    todo = [(after, Partial())] if after is not None else []
+    todo.append((p, ctx))          # the predecessor's own verdict is not part of this case
+    for q, part in todo:
+        aft = after if q is p else None
+        if sub == "ops":
+            check_ops(part, Perm, q, aft)
+        elif sub == "ss":
+            check_ss(part, Perm, SS, q, aft)
+        elif sub == "families":
+            check_families(part, props, q, Perm, aft)
+        elif sub == "deep":
+            check_deep(part, props, Perm, q, len(q) <= 6, aft)
+        else:
+            raise ValueError("unknown sub-check %r" % sub)
